@@ -7,6 +7,7 @@ import itertools
 import types
 
 from . import sigs, oracle
+from . import core
 from .sigs import PO, PK, VA, KO, VK
 from .sigutil import bparams, show, show_params
 
@@ -61,6 +62,7 @@ def gen_decorator(rnd, idx, style):
     return name, src, n, [o[0] for o in pos_own], [o[0] for o in kwo_own], style
 
 
+@core.guarded(lambda case_seed: dict(workload='wrap', case_seed=case_seed))
 def check_stack(ctx, case_seed):
     import random
     import sigtools
@@ -262,6 +264,7 @@ COMB_INSPECT_MECH = 'combination-forger-not-visible-to-inspect'
 
 # -------------------------------------------------------------- Combination
 
+@core.guarded(lambda case_seed: dict(workload='combination', case_seed=case_seed))
 def check_combination(ctx, case_seed):
     import random
     import sigtools
